@@ -388,6 +388,38 @@ func roundtripReplay(args []string) {
 			return
 		}
 
+		// ... as a JSON value, member for member (no member that was absent comes back as null)
+		if digestJSON(out) != digestJSON(dj) {
+			fail("round-trip", "the reproduced document is not the same JSON value", dj, out)
+			return
+		}
+
+		// the same document with a further member whose value is null
+		{
+			dn := deepCopyGeneric(generic(dj)).(map[string]interface{})
+			dn["zz-null"] = nil
+			rawN, _ := json.Marshal(dn)
+
+			pn, en := patch.PatchesFromDocument(string(rawN))
+			if en != nil {
+				fail("patches-from-document-refused", "document with a null member: "+en.Error(), nil, nil)
+				return
+			}
+
+			for _, p := range pn {
+				if verr := patchvalidator.Validate(p); verr != nil {
+					fail("derived-patch-invalid", "document with a null member: "+verr.Error(), nil, p)
+					return
+				}
+			}
+
+			on, an := env.composer.ApplyPatches(document.Document{}, pn)
+			if an != nil || digestJSON(on) != digestJSON(dn) {
+				fail("round-trip", "document with a null member: "+fmt.Sprint(an), dn, on)
+				return
+			}
+		}
+
 		// a document that carries an id is refused
 		dj["id"] = "did:example:123"
 		rawID, _ := json.Marshal(dj)
